@@ -50,7 +50,9 @@ impl HostCluster {
 
     #[inline(always)]
     pub(crate) fn rb_slice_host_end(&self, info: &Qcow2Info) -> u64 {
-        self.rb_slice_host_start(info) + (info.rb_slice_entries() << info.cluster_bits()) as u64
+        // shift in 64 bits: entries * cluster size exceeds u32 for big
+        // clusters with narrow refcounts
+        self.rb_slice_host_start(info) + ((info.rb_slice_entries() as u64) << info.cluster_bits())
     }
 
     #[inline(always)]
